@@ -104,6 +104,16 @@ impl FactValue {
 
     /// Compare with operator
     pub fn compare(&self, operator: &str, other: &FactValue) -> bool {
+        // Two integers are ordered exactly: f64 cannot tell apart integers beyond 2^53
+        if let (FactValue::Integer(a), FactValue::Integer(b)) = (self, other) {
+            match operator {
+                ">" => return a > b,
+                "<" => return a < b,
+                ">=" => return a >= b,
+                "<=" => return a <= b,
+                _ => {}
+            }
+        }
         match operator {
             "==" => self == other,
             "!=" => self != other,
